@@ -698,6 +698,13 @@ def subtype_programs(export=("ExportJson", "ExportProvn")):
             rec(kind, [subs[0], t])
     rec("Activity", ["Person"])
     rec("Activity", ["Plan", "Revision"])
+    # a record typed with the PROV class of its own kind, alone and next to a genuine subtype
+    for kind, subs in list(fam.items()) + [("Activity", []), ("Usage", [])]:
+        if kind in ("Derivation", "Usage"):
+            continue
+        rec(kind, [kind])
+        rec(kind, [kind] + subs[:1])
+        rec(kind, [], extra=[["str", "prov:" + kind]])
     for e in export:
         ops.append([e, "0"])
     return [ops] + foreign_formal_programs(export)
